@@ -22,6 +22,7 @@ pub fn plan() -> Plan {
         soft_s: (26, 420),
         exhaustive: None,
         min_evaluations: 100,
+        extra: None,
     }
 }
 
